@@ -346,6 +346,7 @@ func (v *violCtx) pre() {
 		if arg%2 == 1 {
 			v.hdr.Time = c.mtp + 1
 		}
+		v.hdr.Bits = consensus.NextWorkRequiredAt(c.parent.Idx, s.P, v.hdr.Time) // (on a test network the time decides the target)
 		v.effective = true
 	case "time_future":
 		now := uint32(time.Now().Unix())
@@ -366,6 +367,7 @@ func (v *violCtx) pre() {
 			v.hdr.Time = now + 1<<31 - 100
 			v.sub = "now+2^31-100"
 		}
+		v.hdr.Bits = consensus.NextWorkRequiredAt(c.parent.Idx, s.P, v.hdr.Time)
 		v.effective = true
 	case "version":
 		vs := []uint32{1, 2, 3, 4, 0x20000000, 0x80000000, 0x80000004, 0xffffffff, 5}
